@@ -59,7 +59,15 @@ var initAllow = []string{
 var initDeny = []string{"io/fs", "io/ioutil", "github.com/ucan-wg/go-ucan/did/didtest", "github.com/ucan-wg/go-ucan/token/delegation/delegationtest",
 	"github.com/ipld/go-ipld-prime/codec/dagjson", "github.com/ipld/go-ipld-prime/node/bindnode"}
 
+// initExact: packages initialised without their sub-packages.
+var initExact = []string{"crypto", "crypto/sha256", "crypto/sha512", "hash", "crypto/internal/boring/sig"}
+
 func denyInit(p string) bool {
+	for _, a := range initExact {
+		if p == a {
+			return false
+		}
+	}
 	for _, d := range initDeny {
 		if p == d || strings.HasPrefix(p, d+"/") {
 			return true
@@ -89,7 +97,7 @@ func loadProgram(wi *WorkerInit) (*ssa.Program, map[string]*ssa.Package, int, er
 		Mode:       packages.LoadAllSyntax,
 		Dir:        repoDir,
 		Overlay:    ov,
-		BuildFlags: []string{"-tags=verif"},
+		BuildFlags: []string{"-tags=verif,purego"}, // purego: portable Go instead of assembly (e.g. SHA-256 blocks)
 		Env:        append(os.Environ(), "GOFLAGS=-mod=mod", "GOPROXY=off", "GOSUMDB=off", "GOTOOLCHAIN=local"),
 	}
 	pkgs, err := packages.Load(cfg, wi.Patterns...)
